@@ -217,6 +217,11 @@ def special_bases(ids):
         {"k": "list", "t": "taglist", "c": [gen.TAG("div"), T(), gen.TAG("span", ws=False)]},
         {"k": "list", "t": "taglist", "c": [T(), gen.TAG("p", T()), {"k": "obj", "s": "o2;"}]},
         gen.TAG("ul", gen.TAG("li", T()), gen.TAG("li", gen.TAG("b", T(), ws=False)), gen.TAG("li")),
+        # content that itself contains empty lines / repeated line separators
+        gen.TAG("div", {"k": "text", "s": "x\n\ny"}, gen.TAG("p", T())), gen.TAG("pre", {"k": "text", "s": "\n\nkeep\n\n"}, ws=False),
+        gen.TAG("style", {"k": "text", "s": "a{}\n\n\nb{}"}, {"k": "text", "s": "\n\n"}), gen.TAG("div", {"k": "html", "s": "<i>h</i>\r\n\r\n"}, T()),
+        gen.TAG("div", {"k": "text", "s": "@@@@"}, gen.TAG("p", {"k": "text", "s": "@@@@q"}), {"k": "obj", "s": "o@@@@"}),
+        {"k": "list", "t": "taglist", "c": [{"k": "text", "s": "\n\n"}, gen.TAG("div", {"k": "text", "s": "a\n\n\nb"}, T())]},
     ]
 
 
